@@ -58,7 +58,7 @@ def _rounds(rng, size, n=5):
 
 
 def generate(tier, rng):
-  reps = {'quick': 1, 'thorough': 4, 'search': 8}[tier]
+  reps = {'quick': 2, 'thorough': 5, 'search': 8}[tier]
   # agnostic: windows x domain learning rates; histories that starve a domain for a whole window
   for W in ([1, 2, 3] if tier == 'quick' else [1, 2, 3, 4]):
     for dlr in ([0.0625, 1.0] if tier == 'quick' else [0.0625, 0.25, 1.0, 2.0]):
